@@ -27,4 +27,10 @@ def shards(tier):
     for lo in range(0, n, 24):
         out.append({"fn": "refine", "consts": {"coll": "modules", "na": len(R.ARRANGEMENTS), "op_lo": lo, "nops": min(24, n - lo)}, "timeout": 900, "twin": "first", "cover": "first"})
     out.append({"fn": "refine", "consts": {"coll": "symbolic_expressions", "na": 8, "op_lo": 0, "nops": len(R.MAP_OPS)}, "timeout": 900})
+    if tier != "quick":
+        nm = len(R._mutating_set_ops())
+        for kind in R.SET_KINDS:
+            for lo in range(0, nm, 4):
+                out.append({"fn": "refine2", "consts": {"coll": kind, "na": 4, "op_lo": lo, "nops1": min(4, nm - lo), "nops": len(R.SET_OPS)},
+                            "timeout": 1800, "twin": "first", "cover": False})
     return out
